@@ -99,12 +99,22 @@ Proof. exact refuted_casefold. Qed.
 Theorem C06_refuted_assocname : exists M order, wfM M = true /\ topo M order /\ wf_table_names_unique (gen M order) = false.
 Proof. exact refuted_assocname. Qed.
 
-(* C06-i: the order ORMatic sorts by (direct bases only) admits emitting a derived DAO before its parent DAO when an
-   unmapped class sits between them; with a parents-first order the same model is fine *)
-Theorem C06_refuted_unmappedorder : exists M order, wfM M = true /\ inF M = true /\ (forall c, In c order <-> In c M)
-  /\ NoDup (map c_name order) /\ direct_parents_first M [] order = true
-  /\ wf_bases_first [] (s_tables (gen M order)) = false.
-Proof. exact refuted_unmappedorder. Qed.
+(* emission order (C06-i repaired by 280300b): whatever order the classes are handed over in, a topological order of
+   ORMatic's inheritance graph (direct mapped base + first mapped class of the MRO) lists every class once and is
+   parents-first along parent_table; hence every derived DAO is emitted after the DAO it derives from *)
+Theorem C06_impl_order_is_topo : forall M order, impl_order M order -> topo M order.
+Proof. exact impl_order_topo. Qed.
+Theorem C06_emission_parents_first : forall M order, impl_order M order ->
+  wf_bases_first [] (s_tables (gen M order)) = true.
+Proof. exact emission_parents_first. Qed.
+
+(* regression example for C06-i: the formerly admissible order that emits DogDAO before AnimalDAO is excluded now *)
+Example C06_fixed_unmappedorder : wfM M_unmapped = true /\ inF M_unmapped = true
+  /\ direct_parents_first M_unmapped [] (rev M_unmapped) = true
+  /\ wf_bases_first [] (s_tables (gen M_unmapped (rev M_unmapped))) = false
+  /\ graph_parents_first M_unmapped [] (rev M_unmapped) = false
+  /\ graph_parents_first M_unmapped [] M_unmapped = true.
+Proof. exact fixed_unmappedorder. Qed.
 
 (* non-vacuity: a model with inheritance, a redeclared inherited field, references, collections and a private field is in
    the grammar and in F; its schema is statically well-formed and is read back exactly as the Spec says *)
@@ -131,4 +141,5 @@ Print Assumptions C06_refuted_pkname.
 Print Assumptions C06_refuted_discname.
 Print Assumptions C06_refuted_casefold.
 Print Assumptions C06_refuted_assocname.
-Print Assumptions C06_refuted_unmappedorder.
+Print Assumptions C06_impl_order_is_topo.
+Print Assumptions C06_emission_parents_first.
